@@ -4,6 +4,7 @@ import (
 	"fmt"
 	"go/token"
 	"go/types"
+	"sort"
 	"strings"
 
 	"golang.org/x/tools/go/ssa"
@@ -505,50 +506,131 @@ func rulePairCacheCount(c *Ctx) {
 	addCount := p.Method("rescache.EventSubscription.addCount")
 	removeCount := p.Method("rescache.EventSubscription.removeCount")
 	addSubscriber := p.Method("rescache.EventSubscription.addSubscriber")
-	getSubM := p.Method("rescache.Cache.getSubscription")
+	esType := p.Named("rescache.EventSubscription")
 
-	// (a) inside getSubscription: +1 on a nil-error return, net 0 on an error return
-	{
+	countEvents := func(t *Tracer, fr *Frame, in ssa.Instruction) []Ev {
+		switch x := in.(type) {
+		case *ssa.Store:
+			if fa, ok := x.Addr.(*ssa.FieldAddr); ok && fieldOfAddr(fa) == fCount {
+				if k, ok := constInt(x.Val); ok && k == 1 {
+					if _, isAlloc := fa.X.(*ssa.Alloc); isAlloc {
+						return []Ev{{Kind: "count+1", Note: "new entry"}}
+					}
+				}
+				return []Ev{{Kind: "count?", Note: "unrecognised store to count"}}
+			}
+		case ssa.CallInstruction:
+			if _, ok := isCallTo(in, addCount); ok {
+				return []Ev{{Kind: "count+1", Note: "addCount", Stop: true}}
+			}
+			if call, ok := isCallTo(in, removeCount); ok {
+				if k, ok := constInt(callArgs(call.Common())[1]); ok && k == 1 {
+					return []Ev{{Kind: "count-1", Stop: true}}
+				}
+				return []Ev{{Kind: "count?", Note: "removeCount with non-constant", Stop: true}}
+			}
+		}
+		return nil
+	}
+
+	// the acquirers: getSubscription and every other unexported function of the package that returns an
+	// *EventSubscription (alone or with an error) and counts a use on some path (a split-up getSubscription)
+	returnsES := func(f *ssa.Function) (errIdx int, ok bool) {
+		res := f.Signature.Results()
+		if res.Len() == 0 || res.Len() > 2 || esType == nil {
+			return -1, false
+		}
+		pt, isPtr := res.At(0).Type().(*types.Pointer)
+		if !isPtr || !types.Identical(pt.Elem(), esType) {
+			return -1, false
+		}
+		if res.Len() == 2 {
+			if !isErrorType(res.At(1).Type()) {
+				return -1, false
+			}
+			return 1, true
+		}
+		return -1, true
+	}
+	acquirers := map[*ssa.Function]int{} // -> index of the error result, or -1
+	for _, f := range p.Repo {
+		if f.Parent() != nil || f.Pkg != getSub.Pkg || f.Object() == nil || (f.Object().Exported() && f != getSub) {
+			continue
+		}
+		ei, ok := returnsES(f)
+		if !ok {
+			continue
+		}
+		if f == getSub {
+			acquirers[f] = ei
+			continue
+		}
+		counts := false
+		for _, g := range p.withHelpers(f) {
+			for _, in := range instrsOf(g) {
+				for _, e := range countEvents(nil, nil, in) {
+					if e.Kind == "count+1" {
+						counts = true
+					}
+				}
+			}
+		}
+		if counts {
+			acquirers[f] = ei
+		}
+	}
+	var acqList []*ssa.Function
+	var acqFuncs []*types.Func
+	for f := range acquirers {
+		acqList = append(acqList, f)
+	}
+	sort.Slice(acqList, func(i, j int) bool { return fnName(acqList[i]) < fnName(acqList[j]) })
+	for _, f := range acqList {
+		if o, ok := f.Object().(*types.Func); ok {
+			acqFuncs = append(acqFuncs, o)
+		}
+	}
+
+	// (a) inside every acquirer: +1 on a successful return, net 0 on an error return
+	for _, acqFn := range acqList {
+		ei := acquirers[acqFn]
 		sp := &Spec{}
 		sp.Classify = func(t *Tracer, fr *Frame, in ssa.Instruction) []Ev {
-			switch x := in.(type) {
-			case *ssa.Store:
-				if fa, ok := x.Addr.(*ssa.FieldAddr); ok && fieldOfAddr(fa) == fCount {
-					if k, ok := constInt(x.Val); ok && k == 1 {
-						if _, isAlloc := fa.X.(*ssa.Alloc); isAlloc {
-							return []Ev{{Kind: "count+1", Note: "new entry"}}
-						}
-					}
-					return []Ev{{Kind: "count?", Note: "unrecognised store to count"}}
-				}
-			case ssa.CallInstruction:
-				if _, ok := isCallTo(in, addCount); ok {
-					return []Ev{{Kind: "count+1", Note: "addCount", Stop: true}}
-				}
-				if call, ok := isCallTo(in, removeCount); ok {
-					if k, ok := constInt(callArgs(call.Common())[1]); ok && k == 1 {
-						return []Ev{{Kind: "count-1", Stop: true}}
-					}
-					return []Ev{{Kind: "count?", Note: "removeCount with non-constant", Stop: true}}
-				}
-			case *ssa.Return:
-				if fr == t.RootFr && len(x.Results) == 2 {
-					if isNilConst(t.Resolve(fr, x.Results[1]).V) {
+			if x, ok := in.(*ssa.Return); ok {
+				if fr == t.RootFr {
+					if ei < 0 || isNilConst(t.Resolve(fr, x.Results[ei]).V) {
 						return []Ev{{Kind: "return:ok"}}
 					}
 					return []Ev{{Kind: "return:err"}}
 				}
+				return nil
 			}
-			return nil
+			// a nested acquirer is decided on its own: it counts one use when it succeeds
+			if call, ok := isCallTo(in, acqFuncs...); ok && fr == t.RootFr {
+				if sf := call.Common().StaticCallee(); sf != nil && sf != acqFn && acquirers[sf] < 0 {
+					return []Ev{{Kind: "count+1", Note: "nested acquirer", Stop: true}}
+				}
+			}
+			return countEvents(t, fr, in)
 		}
 		sp.Branch = func(t *Tracer, fr *Frame, i *ssa.If, dir bool) []Ev {
 			r := t.Resolve(fr, i.Cond)
-			if fr == t.RootFr && len(getSub.Params) == 3 && r.V == ssa.Value(getSub.Params[2]) && dir {
-				return []Ev{{Kind: "subscribe=true"}}
+			if fr == t.RootFr && dir {
+				for _, prm := range acqFn.Params {
+					if b, ok := prm.Type().Underlying().(*types.Basic); ok && b.Kind() == types.Bool && r.V == ssa.Value(prm) {
+						return []Ev{{Kind: "subscribe=true"}}
+					}
+				}
 			}
 			return nil
 		}
-		tr := NewTracer(p, sp, getSub)
+		hasBool := false
+		for _, prm := range acqFn.Params {
+			if b, ok := prm.Type().Underlying().(*types.Basic); ok && b.Kind() == types.Bool {
+				hasBool = true
+			}
+		}
+		tr := NewTracer(p, sp, acqFn)
 		tr.Run()
 		c.inst(1)
 		badOK, badErr, badSub := "", "", ""
@@ -574,21 +656,29 @@ func rulePairCacheCount(c *Ctx) {
 			if ret == "return:err" && net != 0 {
 				badErr = fmt.Sprintf("error return with net count %+d (want 0: nobody can release it): %s", net, tr.FmtPath(path))
 			}
-			if ret == "return:err" && !sub {
+			if ret == "return:err" && hasBool && !sub {
 				badSub = "an error can be returned although no mq subscription was requested (sendRequest ignores the error): " + tr.FmtPath(path)
 			}
 		}
-		pos := p.Pos(getSub.Pos())
-		c.check(badOK == "", fnName(getSub), "one use counted on every successful return", pos, fmt.Sprintf("%d paths", len(tr.Paths)), badOK)
-		c.check(badErr == "", fnName(getSub), "count released on the error return", pos, "error returns are net 0", badErr)
-		c.check(badSub == "", fnName(getSub), "errors only when subscribe was requested", pos, "every error return passes the true edge of the subscribe parameter", badSub)
+		if tr.Trunc {
+			badOK = "path budget exhausted"
+		}
+		pos := p.Pos(acqFn.Pos())
+		c.check(badOK == "", fnName(acqFn), "one use counted on every successful return", pos, fmt.Sprintf("%d paths", len(tr.Paths)), badOK)
+		if ei >= 0 {
+			c.check(badErr == "", fnName(acqFn), "count released on the error return", pos, "error returns are net 0", badErr)
+			c.check(badSub == "", fnName(acqFn), "errors only when subscribe was requested", pos, "every error return passes the true edge of the subscribe parameter (or the function always subscribes)", badSub)
+		}
 	}
 
-	// (b) callers of getSubscription: the acquired use is released (removeCount(1)) or handed to addSubscriber exactly once
+	// (b) callers of an acquirer: the acquired use is released (removeCount(1)) or handed to addSubscriber exactly once
 	callers := map[*ssa.Function]bool{}
 	for _, f := range p.Repo {
+		if _, isAcq := acquirers[TopLevel(f)]; isAcq {
+			continue
+		}
 		for _, call := range callsIn(f) {
-			if _, ok := isCallTo(call, getSubM); ok {
+			if _, ok := isCallTo(call, acqFuncs...); ok {
 				callers[TopLevel(f)] = true
 			}
 		}
@@ -603,16 +693,22 @@ func rulePairCacheCount(c *Ctx) {
 		var acq *ssa.Call
 		isES := func(t *Tracer, fr *Frame, v ssa.Value) bool {
 			r := t.Resolve(fr, v)
+			if acq == nil {
+				return false
+			}
+			if r.V == ssa.Value(acq) {
+				return true // single-result acquirer
+			}
 			e, ok := r.V.(*ssa.Extract)
-			return ok && acq != nil && e.Tuple == ssa.Value(acq) && e.Index == 0
+			return ok && e.Tuple == ssa.Value(acq) && e.Index == 0
 		}
 		sp := &Spec{}
 		sp.Classify = func(t *Tracer, fr *Frame, in ssa.Instruction) []Ev {
-			if call, ok := isCallTo(in, getSubM); ok {
+			if call, ok := isCallTo(in, acqFuncs...); ok {
 				if cv, ok := call.(*ssa.Call); ok {
 					acq = cv
 				}
-				return []Ev{{Kind: "acquire"}}
+				return []Ev{{Kind: "acquire", Stop: true}}
 			}
 			if call, ok := isCallTo(in, removeCount); ok {
 				args := callArgs(call.Common())
@@ -686,6 +782,38 @@ func rulePairMembership(c *Ctx) {
 		return
 	}
 	// every function calling removeCount, except the getSubscription/sendRequest pair covered by cache-count
+	// (the acquirers of a cache use and the functions that call them)
+	covered := map[string]bool{}
+	{
+		esType := p.Named("rescache.EventSubscription")
+		isAcq := func(f *ssa.Function) bool {
+			res := f.Signature.Results()
+			if f.Parent() != nil || res.Len() == 0 || res.Len() > 2 || esType == nil || f.Object() == nil || f.Object().Exported() {
+				return false
+			}
+			pt, isPtr := res.At(0).Type().(*types.Pointer)
+			if !isPtr || !types.Identical(pt.Elem(), esType) || f.Pkg == nil || f.Pkg.Pkg.Name() != "rescache" {
+				return false
+			}
+			if _, isM := f.Object().(*types.Func); !isM || f.Signature.Recv() == nil || !strings.HasSuffix(f.Signature.Recv().Type().String(), "rescache.Cache") {
+				return false
+			}
+			return true
+		}
+		for _, f := range p.Repo {
+			if !isAcq(f) {
+				continue
+			}
+			covered[fnName(f)] = true
+			if n := p.CG.Nodes[f]; n != nil {
+				for _, e := range n.In {
+					if e.Caller.Func != nil && e.Site != nil && e.Site.Common().StaticCallee() == f {
+						covered[fnName(TopLevel(e.Caller.Func))] = true
+					}
+				}
+			}
+		}
+	}
 	for _, f := range p.Repo {
 		var sites []ssa.CallInstruction
 		for _, call := range callsIn(f) {
@@ -698,7 +826,7 @@ func rulePairMembership(c *Ctx) {
 		}
 		name := fnName(f)
 		if _, own := p.ownedBy(f, func(nm string) bool {
-			return nm == "(*rescache.Cache).getSubscription" || nm == "(*rescache.Cache).sendRequest"
+			return covered[nm] || nm == p.FnNameOf("(*rescache.Cache).getSubscription") || nm == p.FnNameOf("(*rescache.Cache).sendRequest")
 		}); own {
 			continue // covered by PAIR/cache-count
 		}
